@@ -48,6 +48,11 @@ spec fn fold_pieces(s: Option<Summary>, ps: Seq<Piece>) -> Option<Summary>
 {
     if ps.len() == 0 { s } else { apply_piece(fold_pieces(s, ps.drop_last()), ps.last()) }
 }
+/// the bound up to which the pending coverage is final: the next entry's start, and after the LAST entry of the
+/// chromosome everything (no base lies at or right of u32::MAX: ends are u32)
+spec fn bound_of(next_start_opt: Option<u32>) -> u32 {
+    if next_start_opt.is_some() { next_start_opt.unwrap() } else { u32::MAX }
+}
 /// where the flushed pieces end
 spec fn flushed_to(ps: Seq<Piece>, a: int) -> int { if ps.len() > 0 { ps.last().e } else { a } }
 
@@ -60,7 +65,7 @@ spec fn flushed_to(ps: Seq<Piece>, a: int) -> int { if ps.len() > 0 { ps.last().
 //@sub /overlap\s*\.get_last\(\)\s*\.map\(\|o\| o\.end >= item_start\)\s*\.unwrap_or\(true\)/ => (overlap@.len() > 0 ==> overlap@.last().end >= item_start)
 //@sub /overlap\.get_last\(\)\.map\(\|o\| o\.end\)/ => last_end_of(overlap)
 //@sub /overlap\s*\.get_first\(\)\s*\.map\(\|f\| f\.start < next_start\)\s*\.unwrap_or\(false\)/ => first_starts_before(overlap, next_start)
-//@sub /u32::max_value\(\)/ => u32::MAX
+//@sub /u32::max_value\(\)/ => u32::MAX min=0
 //@sig
     requires
         [[L: pre]]
@@ -70,31 +75,25 @@ spec fn flushed_to(ps: Seq<Piece>, a: int) -> int { if ps.len() > 0 { ps.last().
         segs_ok(old(overlap)@, d0, item_start as int, ents),
         sbases(*old(summary)) == cnt(ents, 0, item_start as int),
     ensures
-        ({
-            let ents2 = ents.push((item_start, item_end));
-            let next_start = if next_start_opt.is_some() { next_start_opt.unwrap() } else { u32::MAX };
-            let b = flushed_to(out@.1, item_start as int);
-            let hi0 = hi_of(old(overlap)@, item_start as int);
-            [[L: sweep_invariant]]
-            &&& segs_ok(final(overlap)@, out@.0, next_start as int, ents2)
-            [[L: pending_continues_flushed]]
-            &&& segs_ok(final(overlap)@, out@.0, b, ents2)
-            &&& item_start <= b <= next_start
-            &&& (final(overlap)@.len() > 0 ==> b == next_start)
-            [[L: flushed_pieces_tile_and_have_exact_depth]]
-            &&& pieces_ok(out@.1, item_start as int, b, ents2)
-            [[L: flushed_pieces_nonempty]]
-            &&& forall|q: int| 0 <= q < out@.1.len() ==> (#[trigger] out@.1[q]).s < out@.1[q].e
-            [[L: summary_is_fold_of_flushed_pieces]]
-            &&& *final(summary) == fold_pieces(*old(summary), out@.1)
-            [[L: bases_covered_exact]]
-            &&& sbases(*final(summary)) == cnt(ents2, 0, next_start as int)
-            [[L: tail_reaches_max_end]]
-            &&& (final(overlap)@.len() > 0 ==> final(overlap)@.last().end == imax(hi0, item_end as int))
-            &&& (final(overlap)@.len() == 0 ==> imax(hi0, item_end as int) <= next_start)
-            [[L: chrom_end_flushes_everything]]
-            &&& (next_start_opt.is_none() ==> final(overlap)@.len() == 0)
-        }),
+        [[L: sweep_invariant]]
+        segs_ok(final(overlap)@, out@.0, bound_of(next_start_opt) as int, ents.push((item_start, item_end))),
+        [[L: pending_continues_flushed]]
+        segs_ok(final(overlap)@, out@.0, flushed_to(out@.1, item_start as int), ents.push((item_start, item_end))),
+        item_start <= flushed_to(out@.1, item_start as int) <= bound_of(next_start_opt),
+        final(overlap)@.len() > 0 ==> flushed_to(out@.1, item_start as int) == bound_of(next_start_opt),
+        [[L: flushed_pieces_tile_and_have_exact_depth]]
+        pieces_ok(out@.1, item_start as int, flushed_to(out@.1, item_start as int), ents.push((item_start, item_end))),
+        [[L: flushed_pieces_nonempty]]
+        forall|q: int| 0 <= q < out@.1.len() ==> (#[trigger] out@.1[q]).s < out@.1[q].e,
+        [[L: summary_is_fold_of_flushed_pieces]]
+        *final(summary) == fold_pieces(*old(summary), out@.1),
+        [[L: bases_covered_exact]]
+        sbases(*final(summary)) == cnt(ents.push((item_start, item_end)), 0, bound_of(next_start_opt) as int),
+        [[L: tail_reaches_max_end]]
+        final(overlap)@.len() > 0 ==> final(overlap)@.last().end == imax(hi_of(old(overlap)@, item_start as int), item_end as int),
+        final(overlap)@.len() == 0 ==> imax(hi_of(old(overlap)@, item_start as int), item_end as int) <= bound_of(next_start_opt),
+        [[L: chrom_end_flushes_everything]]
+        next_start_opt.is_none() ==> final(overlap)@.len() == 0,
 //@open
             let ghost ents2 = ents.push((item_start, item_end));
             let ghost hi0 = hi_of(overlap@, item_start as int);
@@ -170,7 +169,6 @@ spec fn flushed_to(ps: Seq<Piece>, a: int) -> int { if ps.len() > 0 { ps.last().
                 invariant
                     [[L: flush/frame]]
                     ents2 == ents.push((item_start, item_end)),
-                    next_start == (if next_start_opt.is_some() { next_start_opt.unwrap() } else { u32::MAX }),
                     hi1 == imax(hi0, item_end as int),
                     [[L: flush/position]]
                     item_start <= lo <= next_start,
